@@ -185,6 +185,17 @@ impl Layout {
         s.push_str(&self.gaps[self.pieces.len()]);
         s
     }
+    /// the same layout with every line break of every gap written as a lone CR (classic Mac
+    /// endings); token text is untouched
+    pub fn with_cr_endings(&self) -> Layout {
+        let mut l = self.clone();
+        for g in l.gaps.iter_mut() {
+            *g = g.replace("\r\n", "\r").replace('\n', "\r");
+        }
+        l.nl = "\r";
+        l
+    }
+
     /// byte span of every piece in the rendered text
     pub fn spans(&self) -> Vec<(usize, usize)> {
         let mut v = Vec::with_capacity(self.pieces.len());
